@@ -44,6 +44,8 @@ class SpecRun:
         self.extraction = {}
 
     def extract(self):
+        for nm, content in self.spec.strings:
+            self.prog.intern_string(content)
         for u in self.spec.units:
             path = u[0]
             full = os.path.join(REPO, path) if os.path.exists(os.path.join(REPO, path)) else os.path.join(VERIF, path)
@@ -268,7 +270,7 @@ CASES = {
     'grid2d_8': lambda: _grid_cases(2, 8),
     'grid2d_4': lambda: _grid_cases(2, 4),
     'grid3d_3': lambda: _grid_cases(3, 3),
-    'grid3d_q': lambda: [c for c in _grid_cases(3, 3) if c[0] in ('n=3x2x3', 'n=1x3x2', 'n=2x3x1', 'n=3x3x3', 'n=2x1x3', 'n=1x1x1')],
+    'grid3d_q': lambda: [c for c in _grid_cases(3, 3) if c[0] in ('n=1x3x2', 'n=2x3x1', 'n=2x1x3', 'n=1x1x1', 'n=2x2x2', 'n=3x1x1')],
     'grid3d_4': lambda: _grid_cases(3, 4),
     'grid3d_8': lambda: _grid_cases(3, 8),
 }
